@@ -14,9 +14,29 @@ Open Scope Q_scope.
 Record case := {
   k_handlers : list config;
   k_ops : list op;
-  k_obs : list (list (option (option nat)))   (* per handler, per operation: None = not observed,
+  k_obs : list (list (option (option nat)));  (* per handler, per operation: None = not observed,
                                                  Some r = identity of the retained result (or nothing) *)
+  k_tr : list (Q * Q)                         (* per source step: (a, b), user objective = a * optimizer objective + b
+                                                 (the objective transform the step was run with) *)
 }.
+
+(* What a delivered event is: every user-domain result is the back-transform of the optimizer-domain result it is
+   paired with -- same class, functions in both or in neither, user objective = a * optimizer objective + b
+   (NaN with NaN).  Evaluated on the two facets the harness reads back from the real objects. *)
+Definition item_paired (ab : Q * Q) (it : item) : bool :=
+  Bool.eqb (f_isfun (i_u it)) (f_isfun (i_t it)) && Bool.eqb (f_hasf (i_u it)) (f_hasf (i_t it)) &&
+  match f_obj (i_t it), f_obj (i_u it) with
+  | Some ot, Some ou => close 8 ou (fst ab * ot + snd ab)
+  | None, None => true
+  | _, _ => false
+  end.
+Definition op_paired (tr : list (Q * Q)) (o : op) : bool :=
+  match o with
+  | Emit ev => negb (e_has_results ev && e_has_transformed ev) ||
+               forallb (item_paired (nth (e_src ev) tr (1, 0))) (e_items ev)
+  | Put _ => true
+  end.
+Definition paired_ok (c : case) : bool := forallb (op_paired (k_tr c)) (k_ops c).
 
 (* candidates (identity, facet compared) contributed by one operation; a Put restarts the list: the
    object placed with Plan.set is compared through its own facet, or -- when it is the object the handler
@@ -79,7 +99,8 @@ Definition check_handler (ops : list op) (cfg : config) (obs : list (option (opt
   | Last => forallb2 obs_eqb (trace cfg init ops) obs
   end.
 
-Definition check_case (c : case) : bool := forallb2 (check_handler (k_ops c)) (k_handlers c) (k_obs c).
+Definition check_case (c : case) : bool :=
+  paired_ok c && forallb2 (check_handler (k_ops c)) (k_handlers c) (k_obs c).
 
 (* constructors used by the harness (short names keep the generated shards small) *)
 Definition fct (isfun hasf : bool) (obj : oQ) (viol : option (list (option (list Q)))) : facet :=
@@ -101,6 +122,7 @@ Definition put (id : nat) (u : facet) : op := Put (Some (id, u)).
 Definition cfgp (plan : nat) (w : what) (tol : option Q) (srcs : list nat) : config :=
   {| c_what := w; c_tol := tol; c_sources := srcs; c_plan := plan |}.
 Definition cfgc := cfgp 0.
+Definition tr3 (a b : Q) : list (Q * Q) := [(a, b); (a, b); (a, b)].   (* the same transform for every source *)
 Definition hu : option (option nat) := None.                    (* not observed *)
 Definition hn : option (option nat) := Some None.               (* nothing held *)
 Definition hs (n : nat) : option (option nat) := Some (Some n).
